@@ -60,6 +60,14 @@ def mu_measure(vc):
     return vc.obj(LM + "LevyMeasure")
 
 
+MUNF = z3.Function("MU_N", z3.IntSort(), z3.RealSort(), z3.RealSort(), z3.RealSort())      # int_a^b x^n nu(dx)
+
+
+def MUN(n, a, b):
+    from pyvc.sym import as_int_term
+    return If(compare(a, b, "=="), 0.0, Sym(MUNF(as_int_term(lift(n)), as_real_term(lift(a)), as_real_term(lift(b))), "r"))      # degenerate interval: 0
+
+
 def hook_measure(interp):
     from pyvc import ctx
     from pyvc.sym import PyRaise
@@ -73,6 +81,12 @@ def hook_measure(interp):
     interp.hooks[LM + "LevyMeasure.integrate"] = integ(MU)
     interp.hooks[LM + "LevyMeasure.integrate_against_x"] = integ(MU1)
     interp.hooks[LM + "LevyMeasure.integrate_against_xx"] = integ(MU2)
+
+    def integ_n(it, f, b):
+        a_, b_ = b["a"], b["b"]
+        ctx.PATH.check(f"{it.frames[-1].func.fq if it.frames else '<unit>'} -> LevyMeasure.integrate::requires(a<=b)", a_ <= b_)
+        return MUN(b["n"], a_, b_)
+    interp.hooks[LM + "LevyMeasure.integrate_against_xn"] = integ_n
 
 
 class QVector(FunctionContract):
@@ -424,7 +438,7 @@ class TruncatedInterval(FunctionContract):
 class TruncatedIntegrate(FunctionContract):
     """TruncatedLevyMeasure.integrate / _against_x / _against_xx: the inner measure on the clipped interval"""
     prop = "C01"
-    cases = ("integrate", "integrate_against_x", "integrate_against_xx")
+    cases = ("integrate", "integrate_against_x", "integrate_against_xx", "integrate_against_xn")
     raises = {"ValueError": lambda a=None, b=None, **kw: Not(a <= b)}
 
     def __init__(self):
@@ -444,15 +458,41 @@ class TruncatedIntegrate(FunctionContract):
         basic_axioms(vc)
         vc.ghost["case"] = case
         o = vc.obj(LM + "TruncatedLevyMeasure", truncations=(l, r), levy_measure=mu_measure(vc))
+        if case == "integrate_against_xn":
+            n = vc.int("n")
+            vc.assume(n >= 0)
+            vc.ghost["n"] = n
+            return dict(self=o, a=vc.real("a"), b=vc.real("b"), n=n)
         return dict(self=o, a=vc.real("a"), b=vc.real("b"))
 
-    def ensures(self, result, self_=None, a=None, b=None):
+    def ensures(self, result, self_=None, a=None, b=None, n=None):
         from pyvc import ctx
-        F = {"integrate": MU, "integrate_against_x": MU1, "integrate_against_xx": MU2}[ctx.PATH.ghost["case"]]
+        F = {"integrate": MU, "integrate_against_x": MU1, "integrate_against_xx": MU2,
+             "integrate_against_xn": (lambda lo, hi: MUN(ctx.PATH.ghost["n"], lo, hi))}[ctx.PATH.ghost["case"]]
         l, r = self_.fields["truncations"]
         meet = And(a <= r, l <= b)
         return {"mass-of-the-intersection": Implies(meet, result == F(smax(a, l), smin(b, r))),
                 "zero-outside-the-truncation": Implies(Not(meet), result == 0)}
+
+
+def _truncated_integrate_replay(self, model, clause, case):
+    from contracts import battery
+    from rpylib.model.levymodel.levymodel import TruncatedLevyMeasure
+    nu = battery.models(("hem",))["hem"].levy_triplet.nu
+    l, r = -0.3, 0.25
+    t = TruncatedLevyMeasure(nu, (l, r))
+    out, bad = {}, False
+    for a, b in ((-0.5, -0.1), (0.1, 0.6), (-0.9, -0.4), (0.3, 0.8), (-0.6, 0.7), (0.05, 0.2)):
+        args = (a, b, 3) if case == "integrate_against_xn" else (a, b)
+        got = float(getattr(t, case)(*args))
+        lo, hi = max(a, l), min(b, r)
+        want = float(getattr(nu, case)(*((lo, hi, 3) if case == "integrate_against_xn" else (lo, hi)))) if lo < hi else 0.0
+        out[f"[{a},{b}]"] = [got, want]
+        bad = bad or abs(got - want) > 1e-12 * max(1.0, abs(want))
+    return (bool(bad), {"truncation": [l, r], "method": case, "truncated vs inner-on-the-intersection": out})
+
+
+TruncatedIntegrate.replay = _truncated_integrate_replay
 
 
 class TruncatedDensity(FunctionContract):
